@@ -132,6 +132,10 @@ class HashMap(Map):
         self.vars = []
 
     def globalVar(self, fmt="I", default=0):
+        if len(fmt) == 2 and fmt[0] in "<>!=@":
+            # both sides write the cell in host order, a byte order
+            # given here was honoured by the Python side's reading only
+            fmt = fmt[1]
         self.count += 1
         ret = HashGlobalVarDesc(self.count, fmt, default)
         self.vars.append(ret)
